@@ -51,7 +51,8 @@ def frame_column_values(df, col) -> List[Any]:
     mod = type(df).__module__
     if mod.startswith("polars"):
         return df.get_column(col).to_list()
-    return df[col].tolist()
+    names = [str(c) for c in df.columns]
+    return df.iloc[:, names.index(col)].tolist()  # by position: labels may be non-strings (NaN) or repeated
 
 
 def is_polars(df) -> bool:
